@@ -85,17 +85,22 @@ def _param(draw, idx, nfiles):
             v = val()["text"]
             fl.append({"file": draw(st.integers(0, nfiles - 1)), "name": draw(st.sampled_from(names)), "value": v,
                        "ws": draw(st.sampled_from(["=", " = ", "\t=\t", " =", "= "])), "trail": draw(st.sampled_from(["", " ", "\t", "  "]))})
+    if nfiles >= 2 and fl and draw(st.booleans()):
+        # the same name in a second file: the leftmost file must win
+        e0 = fl[0]
+        other = (e0["file"] + draw(st.integers(1, nfiles - 1))) % nfiles
+        fl.append({"file": other, "name": e0["name"], "value": val()["text"], "ws": " = ", "trail": ""})
     p["file"] = fl
     return p
 
 
 @st.composite
 def cases(draw):
-    c = {"mode": draw(st.sampled_from(["init", "direct", "direct"])), "argv_form": draw(st.sampled_from(["plain", "plain", "dashdash", "prog"]))}
+    c = {"mode": draw(st.sampled_from(["init", "direct", "direct"])), "argv_form": draw(st.sampled_from(["plain", "dashdash", "prog"]))}
     if c["mode"] == "direct":
         c["argv_form"] = "plain"      # the '--' / program-name conventions belong to parsec_init, not to the command-line parser
     style = draw(st.sampled_from(["env_list", "env_list", "home", "none"]))
-    n = 0 if style == "none" else 1 if style == "home" else draw(st.integers(1, 3))
+    n = 0 if style == "none" else 1 if style == "home" else draw(st.sampled_from([1, 2, 2, 3]))
     c["files"] = {"style": style, "n": n,
                   "deco": [draw(st.lists(st.sampled_from(["# comment", "", "// c++ comment", "/* block\n   comment */", "unrelated_thing = 17",
                                                           "   ", "other.name-x = some text"]), max_size=4)) for _ in range(n)]}
